@@ -233,17 +233,7 @@ fn eval_filter_expr(
     };
 
     for predicate in filter.predicates() {
-        context.push_size(nodes.len());
-        let mut filtered = vec![];
-        for (position, n) in nodes.into_iter().enumerate() {
-            context.push_position(position + 1);
-            if eval_predicate(predicate, n.clone(), context)? {
-                filtered.push(n);
-            }
-            context.pop_position();
-        }
-        nodes = filtered;
-        context.pop_size();
+        nodes = filter_nodes(predicate, nodes, context)?;
     }
 
     Ok(nodes.as_value())
@@ -417,17 +407,7 @@ fn eval_axis_node_test(
     }
 
     for predicate in predicates {
-        context.push_size(nodes.len());
-        let mut filtered = vec![];
-        for (position, n) in nodes.into_iter().enumerate() {
-            context.push_position(position + 1);
-            if eval_predicate(predicate, n.clone(), context)? {
-                filtered.push(n);
-            }
-            context.pop_position();
-        }
-        nodes = filtered;
-        context.pop_size();
+        nodes = filter_nodes(predicate, nodes, context)?;
     }
 
     Ok(nodes)
@@ -493,6 +473,36 @@ fn is_principal_node_type(axis: &expr::AxisSpecifier, node: &dom::XmlNode) -> bo
         }
         _ => matches!(node, dom::XmlNode::Element(_)),
     }
+}
+
+/// Keeps the nodes for which the predicate is true, with the context size and position of the
+/// node list. The context is restored even if the predicate fails for some node.
+fn filter_nodes(
+    predicate: &expr::Expr,
+    nodes: Vec<dom::XmlNode>,
+    context: &mut model::Context,
+) -> error::Result<Vec<dom::XmlNode>> {
+    let mut filtered = vec![];
+    let mut result = Ok(());
+
+    context.push_size(nodes.len());
+    for (position, n) in nodes.into_iter().enumerate() {
+        context.push_position(position + 1);
+        let selected = eval_predicate(predicate, n.clone(), context);
+        context.pop_position();
+
+        match selected {
+            Ok(true) => filtered.push(n),
+            Ok(false) => {}
+            Err(e) => {
+                result = Err(e);
+                break;
+            }
+        }
+    }
+    context.pop_size();
+
+    result.map(|_| filtered)
 }
 
 fn eval_predicate(
